@@ -889,8 +889,15 @@ impl<'cmd> Parser<'cmd> {
     ) -> ClapResult<ParseResult> {
         debug!("Parser::parse_short_arg: short_arg={short_arg:?}");
 
+        // A group of flags that is revisited after its flag subcommand was dispatched has already been
+        // read as flags by the parent: it is not a hyphen value of the subcommand's own arguments, and
+        // `flag_subcmd_skip` must be spent on it rather than linger for the next argument
+        let revisiting = self.flag_subcmd_skip != 0;
+
         #[allow(clippy::blocks_in_conditions)]
-        if matches!(parse_state, ParseState::Opt(opt) | ParseState::Pos(opt)
+        if revisiting {
+            debug!("Parser::parse_short_args: revisiting the flag subcommand's group");
+        } else if matches!(parse_state, ParseState::Opt(opt) | ParseState::Pos(opt)
                 if self.cmd[opt].is_allow_hyphen_values_set() || (self.cmd[opt].is_allow_negative_numbers_set() && short_arg.is_negative_number()))
         {
             debug!("Parser::parse_short_args: prior arg accepts hyphenated values",);
